@@ -1357,6 +1357,394 @@ Proof.
     apply (block_closed_stays p vals msgs forced f fid B nx b from a); try assumption; try lia; [apply Hnf; lia | apply Hni; lia].
 Qed.
 
+(* ---- a feeder that has left its window (the "band"): a suffix of its items is replayed ------------------------------ *)
+Definition STA (fid B mn x : Z) (m : mem) : Prop :=
+  wk m fid = None /\ forall r, rd m fid = Some r -> x - B < mn -> r_open r = true.
+Definition STB (fid : Z) (m : mem) : Prop :=
+  match wk m fid with None => True | Some w => w_sealed w = false /\ exists r, rd m fid = Some r /\ r_open r = true end.
+Definition QS (fid : Z) (m : mem) : Prop :=
+  exists r, rd m fid = Some r /\
+    match wk m fid with None => r_open r = true | Some w => w_sealed w = true \/ (w_sealed w = false /\ r_open r = true) end.
+
+Lemma istep_QS p fid m n it : QS fid m -> QS fid (fst (istep p (m, n) it)).
+Proof.
+  intros [r [Hr Hw]]. unfold istep. simpl. destruct (Z.eq_dec (i_feeder it) fid) as [E|N].
+  - rewrite E. pose proof (fill_price_cases p m fid (i_val it) (n - 1) (i_prices it) r Hr) as Hc.
+    set (w0 := match wk m fid with Some w => w | None => new_worker (m_vals m) end) in *.
+    assert (H0 : w_sealed w0 = true \/ (w_sealed w0 = false /\ r_open r = true)).
+    { unfold w0. destruct (wk m fid) as [w|]; [exact Hw | right; split; [reflexivity | exact Hw]]. }
+    destruct Hc as [[Hs [_ [Hr1 Hw1]]]|[Hs [w1 [kept [fin [Hwd Hres]]]]]].
+    + exists r. split; [exact Hr1|]. rewrite Hw1. left. exact Hs.
+    + destruct H0 as [H0|[_ Ho]]; [congruence|].
+      pose proof (worker_do_sealed (p_maxnonce p) w0 (i_val it) (n - 1) (pw (m_vals m) (i_val it)) (i_prices it)) as Hsl.
+      rewrite Hwd in Hsl. simpl in Hsl.
+      destruct kept as [kl|]; [destruct fin as [price|]|].
+      * destruct Hres as [_ [Hr1 Hw1]]. eexists. split; [exact Hr1|]. rewrite Hw1. left. reflexivity.
+      * destruct Hres as [_ [Hr1 Hw1]]. exists r. split; [exact Hr1|]. rewrite Hw1. right. split; [congruence | exact Ho].
+      * destruct Hres as [_ [Hr1 Hw1]]. exists r. split; [exact Hr1|]. rewrite Hw1. right. split; [congruence | exact Ho].
+  - pose proof (fill_price_frame p m (i_feeder it) (i_val it) (n - 1) (i_prices it)) as [_ [_ [_ [_ [F5 _]]]]].
+    destruct (F5 fid ltac:(congruence)) as [Ea Eb]. exists r. rewrite Ea, Eb. split; assumption.
+Qed.
+
+Lemma ifold_QS p fid : forall its m n, QS fid m -> QS fid (fst (fold_left (istep p) its (m, n))).
+Proof.
+  induction its as [|it r IH]; intros m n HQ; [exact HQ|]. simpl fold_left.
+  pose proof (istep_QS p fid m n it HQ) as H1. destruct (istep p (m, n) it) as [m1 n1]. apply IH. exact H1.
+Qed.
+
+Lemma ifold_frame p fid : forall its m n, filter (isf fid) its = [] ->
+  rd (fst (fold_left (istep p) its (m, n))) fid = rd m fid /\ wk (fst (fold_left (istep p) its (m, n))) fid = wk m fid.
+Proof.
+  induction its as [|it r IH]; intros m n Hnil; [split; reflexivity|]. simpl fold_left. simpl in Hnil.
+  destruct (isf fid it) eqn:Ef; [discriminate|]. unfold isf in Ef. apply Z.eqb_neq in Ef.
+  destruct (istep_other p [] fid 0 0 m n it [] Ef) as [_ [_ O3]].
+  assert (O4 : wk (fst (istep p (m, n) it)) fid = wk m fid).
+  { unfold istep. simpl. pose proof (fill_price_frame p m (i_feeder it) (i_val it) (n - 1) (i_prices it)) as [_ [_ [_ [_ [F5 _]]]]].
+    apply (F5 fid). congruence. }
+  destruct (istep p (m, n) it) as [m1 n1]. simpl in O3, O4. destruct (IH m1 n1 Hnil) as [I1 I2]. rewrite I1, I2. split; assumption.
+Qed.
+
+Lemma block_band p vals msgs forced f fid B b x a :
+  isforced forced x = false -> params_ok p -> items_started p msgs ->
+  get_feeder (p_feeders p) fid = Some f -> f_start f <= b -> basedb f b = B -> B < x - 1 <= b -> 1 <= x - 1 ->
+  BS p vals (x - 1) a ->
+  let m' := fst (replay_block p msgs forced a x) in
+  (filter (isf fid) (bitems msgs forced x) = [] -> STA fid B (p_maxnonce p) (x - 1) (fst a) -> STA fid B (p_maxnonce p) x m') /\
+  (x - 1 - B < p_maxnonce p -> STA fid B (p_maxnonce p) (x - 1) (fst a) -> STB fid m') /\
+  (filter (isf fid) (bitems msgs forced x) = [] -> STB fid (fst a) -> STB fid m').
+Proof.
+  intros Hfo Hok Hits Hf Hst HB Hx Hx1 [HR HG]. destruct a as [m n]. simpl in HR, HG. intro m'. unfold m'. rewrite replay_block_unfold. simpl fst.
+  pose proof Hok as [ND [Hmn [NE HI]]]. destruct (get_feeder_some _ _ _ Hf) as [Hin Hid]. destruct (HI _ Hin) as [HI1 HS1].
+  destruct (based_range f b (x - 1) HI1 Hst ltac:(lia)) as [R1 [R2 [R3 R4]]]. rewrite HB in R1, R3.
+  pose proof (prepare_RT_mem p (x - 1) m Hok HR) as HR1. destruct (prepare_GR p vals (x - 1) m n Hok HG) as [HG1 _].
+  pose proof (prepare_mem_at p (x - 1) m ND Hx1) as [_ [_ [_ [_ [_ [_ [B7 B8]]]]]]].
+  specialize (B7 fid). specialize (B8 fid). rewrite Hf, (inactive_ok p f (x - 1) Hok Hin) in B7, B8.
+  destruct (x - 1 <? f_start f) eqn:Ea; [apply Z.ltb_lt in Ea; lia|].
+  assert (E0 : (leftb f (x - 1) =? 0) = false) by (apply Z.eqb_neq; lia). rewrite E0 in B8.
+  assert (B8' : wk (fst (prepare p (x - 1) m)) fid = wk m fid) by (rewrite B8; destruct (rd m fid); reflexivity).
+  set (m1 := fst (prepare p (x - 1) m)) in *.
+  set (r1 := prep_one (p_maxnonce p) (x - 1) f (rd m fid)) in *.
+  assert (Hb1 : r_based r1 = B).
+  { destruct HR1 as [_ [Hsound _]]. destruct (Hsound fid r1 B7) as [f' [Hf' [_ [Hb _]]]]. rewrite Hf in Hf'. inversion Hf'; subst f'. rewrite Hb. exact R1. }
+  assert (Ho1 : x - 1 - B < p_maxnonce p -> STA fid B (p_maxnonce p) (x - 1) m -> r_open r1 = true).
+  { intros Hw [_ Hop]. unfold r1, prep_one. destruct (rd m fid) as [r|].
+    - rewrite E0. specialize (Hop r eq_refl Hw). rewrite Hop. destruct (p_maxnonce p <=? leftb f (x - 1)) eqn:E; [apply Z.leb_le in E; lia|]. simpl. exact Hop.
+    - simpl. destruct (p_maxnonce p <=? leftb f (x - 1)) eqn:E; [apply Z.leb_le in E; lia | reflexivity]. }
+  assert (Ho2 : forall r, rd m fid = Some r -> r_open r = true -> r1 = r).
+  { intros r Hr Hop. destruct HR as [_ Hmid]. destruct (Hmid fid r Hr) as [f' [Hf' [Hs' [Hb [_ Hol]]]]]. rewrite Hf in Hf'. inversion Hf'; subst f'.
+    specialize (Hol Hop). destruct (based_range f b (x - 1 - 1) HI1 Hst ltac:(lia)) as [R1' _]. rewrite HB in R1'. rewrite R1' in Hb. rewrite Hb in Hol.
+    unfold r1, prep_one. rewrite Hr, E0, Hop. destruct (p_maxnonce p <=? leftb f (x - 1)) eqn:E; [apply Z.leb_le in E; lia | reflexivity]. }
+  destruct (ifold p vals (x - 1) fid 0 0 Hok (bitems msgs forced x) m1 n [] HR1 HG1 (bitems_started p msgs forced x Hits)) as [HR2 _].
+  pose proof (ifold_frame p fid (bitems msgs forced x) m1 n) as Hfr.
+  pose proof (ifold_QS p fid (bitems msgs forced x) m1 n) as HQ.
+  destruct (fold_left (istep p) (bitems msgs forced x) (m1, n)) as [m2 n2]. simpl in HR2, Hfr, HQ.
+  destruct HR2 as [S2 _]. pose proof (seal_mem_at p x (isforced forced x) m2 NE S2) as [_ [_ [_ [_ [_ [_ [A7 A8]]]]]]].
+  specialize (A7 fid). specialize (A8 fid). rewrite Hfo in *. simpl.
+  set (m3 := fst (fst (seal p x false m2))) in *.
+  assert (Hcl : forall r, r_based r = B -> closing p x false r = false -> r_open r = true -> seal_one p x false fid r = r).
+  { intros r Hb Hc Hop. unfold seal_one. rewrite Hf. unfold closing in Hc. rewrite Hc. reflexivity. }
+  split; [|split].
+  - intros Hnil HA. destruct (Hfr Hnil) as [F1 F2]. rewrite F1, B7 in A7, A8. rewrite F2, B8' in A8. rewrite Hf in A8.
+    destruct HA as [Hwn Hop]. split.
+    + rewrite A8, Hwn. destruct (closing p x false r1); reflexivity.
+    + intros r Hr Hw. rewrite A7 in Hr. simpl in Hr. inversion Hr; subst r.
+      assert (Hop1 : r_open r1 = true) by (apply Ho1; [lia | split; assumption]).
+      rewrite Hcl; try assumption. unfold closing. rewrite Hb1, Hop1. simpl. rewrite orb_false_r. apply Z.leb_gt. lia.
+  - intros Hw HA. assert (Hop1 : r_open r1 = true) by (apply Ho1; assumption).
+    assert (HQ1 : QS fid m1) by (exists r1; split; [exact B7|]; rewrite B8'; destruct HA as [Hwn _]; rewrite Hwn; exact Hop1).
+    destruct (HQ HQ1) as [r2 [Hr2 Hw2]]. rewrite Hr2 in A7, A8. rewrite Hf in A8. unfold STB. rewrite A8.
+    destruct (closing p x false r2) eqn:Ec; [exact I|].
+    destruct (wk m2 fid) as [w|]; [|exact I]. destruct (w_sealed w) eqn:Es; [exact I|].
+    destruct Hw2 as [Hw2|[_ Hop2]]; [discriminate|]. split; [exact Es|]. exists r2. split; [|exact Hop2].
+    rewrite A7. simpl. unfold seal_one. rewrite Hf. unfold closing in Ec. rewrite Ec. reflexivity.
+  - intros Hnil HBm. destruct (Hfr Hnil) as [F1 F2]. rewrite F1, B7 in A7, A8. rewrite F2, B8' in A8. rewrite Hf in A8.
+    unfold STB in *. rewrite A8. destruct (closing p x false r1) eqn:Ec; [exact I|].
+    destruct (wk m fid) as [w|]; [|exact I]. destruct HBm as [Hs [r [Hr Hop]]]. rewrite Hs. split; [exact Hs|].
+    pose proof (Ho2 r Hr Hop) as E1. exists r. split; [|exact Hop]. rewrite A7. simpl. rewrite E1.
+    unfold seal_one. rewrite Hf. unfold closing in Ec. rewrite E1 in Ec. rewrite Ec. reflexivity.
+Qed.
+
+(* the whole replay for a band feeder whose replayed items all lie in one block x1 *)
+Lemma replay_all_band p vals msgs forced f fid B b x1 :
+  params_ok p -> items_started p msgs ->
+  get_feeder (p_feeders p) fid = Some f -> f_start f <= b -> basedb f b = B ->
+  (forall x, isforced forced x = false) ->
+  (filter (isf fid) (bitems msgs forced x1) <> [] -> x1 - 1 - B < p_maxnonce p) ->
+  forall n from a, B < from - 1 -> 1 <= from - 1 -> from + Z.of_nat n - 1 <= b ->
+  (forall x, from <= x -> x <> x1 -> filter (isf fid) (bitems msgs forced x) = []) ->
+  BS p vals (from - 1) a ->
+  (if from <=? x1 then STA fid B (p_maxnonce p) (from - 1) (fst a) else STB fid (fst a)) ->
+  let e := from + Z.of_nat n in
+  (if e <=? x1 then STA fid B (p_maxnonce p) (e - 1) (fst (fold_left (replay_block p msgs forced) (zrange from n) a))
+   else STB fid (fst (fold_left (replay_block p msgs forced) (zrange from n) a))).
+Proof.
+  intros Hok Hits Hf Hst HB Hnf Hx1.
+  induction n as [|n IH]; intros from a HfromB Hfrom1 Hend Hni HBS HST.
+  - simpl. replace (from + 0) with from by lia. exact HST.
+  - simpl zrange. simpl fold_left. replace (from + Z.of_nat (S n)) with ((from + 1) + Z.of_nat n) by lia.
+    assert (HBS' : BS p vals (from + 1 - 1) (replay_block p msgs forced a from)) by (replace (from + 1 - 1) with from by lia; apply block_BS; assumption).
+    apply IH; try lia; try assumption; [intros x Hx Hne; apply Hni; [lia | exact Hne]|].
+    destruct (block_band p vals msgs forced f fid B b from a (Hnf from) Hok Hits Hf Hst HB ltac:(lia) Hfrom1 HBS) as [K1 [K2 K3]].
+    replace (from + 1 - 1) with from by lia.
+    destruct (from <=? x1) eqn:E1; [apply Z.leb_le in E1 | apply Z.leb_gt in E1].
+    + destruct (from + 1 <=? x1) eqn:E2; [apply Z.leb_le in E2 | apply Z.leb_gt in E2].
+      * apply K1; [apply Hni; lia | exact HST].
+      * assert (from = x1) by lia. subst x1.
+        destruct (filter (isf fid) (bitems msgs forced from)) as [|it r] eqn:Efi.
+        -- destruct (K1 eq_refl HST) as [Hwn _]. unfold STB. rewrite Hwn. exact I.
+        -- apply K2; [apply Hx1; discriminate | exact HST].
+    + destruct (from + 1 <=? x1) eqn:E2; [apply Z.leb_le in E2; lia|].
+      apply K3; [apply Hni; lia | exact HST].
+Qed.
+
+(* ---- ... or a suffix whose reporters do not carry enough power to finalize before the last item block --------------- *)
+Definition pwp (vals : list (Z * Z)) (v : Z) : Z := Z.max 0 (pw vals v).
+Fixpoint psum (vals : list (Z * Z)) (its : list item) : Z :=
+  match its with [] => 0 | it :: r => pwp vals (i_val it) + psum vals r end.
+Definition Tot (vals : list (Z * Z)) : Z := c_total (core0 vals).
+
+Lemma psum_nonneg vals its : 0 <= psum vals its.
+Proof. induction its as [|it r IH]; simpl; [lia|]. unfold pwp. lia. Qed.
+
+Lemma exceeds_mono a b T : a <= b -> exceeds a T = true -> exceeds b T = true.
+Proof. unfold exceeds, thr_a, thr_b. intros L Ha. apply Z.ltb_lt in Ha. apply Z.ltb_lt. lia. Qed.
+Lemma exceeds_anti a b T : a <= b -> exceeds b T = false -> exceeds a T = false.
+Proof. intros L Hb. destruct (exceeds a T) eqn:E; [|reflexivity]. rewrite (exceeds_mono a b T L E) in Hb. discriminate. Qed.
+
+Lemma core_do_power c v power ps :
+  c_total (fst (fst (core_do c v power ps))) = c_total c /\
+  c_rpower (fst (fst (core_do c v power ps))) <= c_rpower c + Z.max 0 power /\
+  (snd (core_do c v power ps) <> None -> exceeds (c_rpower (fst (fst (core_do c v power ps)))) (c_total c) = true).
+Proof.
+  unfold core_do. destruct (add_psource _ ps) as [sn1 kept]. destruct kept as [|k0 kr]; [simpl; repeat split; [lia | congruence]|].
+  match goal with |- context [agg_fill ?c1 v power] => set (c2 := agg_fill c1 v power) end.
+  assert (H2 : c_total c2 = c_total c /\ c_rpower c2 <= c_rpower c + Z.max 0 power).
+  { unfold c2, agg_fill. simpl. destruct (has_report _ _); simpl; split; try reflexivity; lia. }
+  destruct H2 as [H2 H3].
+  match goal with |- context [let '(cs, conf) := ?X in _] => destruct X as [cs conf] end.
+  destruct conf as [[d pr]|]; simpl.
+  - unfold confirm_ds; simpl. destruct (c_ds c2); simpl.
+    + split; [exact H2|]. split; [exact H3|]. rewrite H2. destruct (exceeds (c_rpower c2) (c_total c)); [reflexivity | congruence].
+    + split; [exact H2|]. split; [exact H3|]. rewrite H2. destruct (exceeds (c_rpower c2) (c_total c)); [reflexivity | congruence].
+  - split; [exact H2|]. split; [exact H3|]. rewrite H2. destruct (exceeds (c_rpower c2) (c_total c)); [reflexivity | congruence].
+Qed.
+
+Lemma worker_do_power mn w v nonce power ps w1 kept fin :
+  worker_do mn w v nonce power ps = (w1, kept, fin) ->
+  c_total (w_core w1) = c_total (w_core w) /\ c_rpower (w_core w1) <= c_rpower (w_core w) + Z.max 0 power /\
+  (fin <> None -> exceeds (c_rpower (w_core w1)) (c_total (w_core w)) = true).
+Proof.
+  unfold worker_do. destruct (set_add mn nonce _) as [ns1 ok]. destruct ok.
+  - pose proof (core_do_power (w_core w) v power ps) as H.
+    destruct (core_do (w_core w) v power ps) as [[c1 k] f]. simpl in H. intro E. inversion E; subst. simpl. exact H.
+  - intro E. inversion E; subst. simpl. split; [reflexivity|]. split; [lia | congruence].
+Qed.
+
+Definition QP (vals : list (Z * Z)) (fid bound : Z) (m : mem) : Prop :=
+  0 <= bound /\ exists r, rd m fid = Some r /\ r_open r = true /\
+    match wk m fid with
+    | None => True
+    | Some w => w_sealed w = false /\ c_total (w_core w) = Tot vals /\ c_rpower (w_core w) <= bound
+    end.
+
+Lemma istep_QP p vals fid bound m n it : m_vals m = vals ->
+  exceeds (bound + (if isf fid it then pwp vals (i_val it) else 0)) (Tot vals) = false ->
+  QP vals fid bound m -> QP vals fid (bound + (if isf fid it then pwp vals (i_val it) else 0)) (fst (istep p (m, n) it)).
+Proof.
+  intros Hv Hex [Hb0 [r [Hr [Ho Hw]]]]. unfold istep. simpl. unfold isf in *. destruct (Z.eq_dec (i_feeder it) fid) as [E|N].
+  - rewrite E in *. rewrite Z.eqb_refl in *. pose proof (fill_price_cases p m fid (i_val it) (n - 1) (i_prices it) r Hr) as Hc. rewrite Hv in Hc.
+    set (w0 := match wk m fid with Some w => w | None => new_worker vals end) in *.
+    assert (H0 : w_sealed w0 = false /\ c_total (w_core w0) = Tot vals /\ c_rpower (w_core w0) <= bound).
+    { unfold w0. destruct (wk m fid) as [w|]; [exact Hw|]. repeat split; simpl; lia. }
+    destruct H0 as [Hs0 [Ht0 Hp0]].
+    assert (Hb1 : 0 <= bound + pwp vals (i_val it)) by (unfold pwp; lia).
+    destruct Hc as [[Hs _]|[_ [w1 [kept [fin [Hwd Hres]]]]]]; [congruence|].
+    pose proof (worker_do_sealed (p_maxnonce p) w0 (i_val it) (n - 1) (pw vals (i_val it)) (i_prices it)) as Hsl. rewrite Hwd in Hsl. simpl in Hsl.
+    destruct (worker_do_power _ _ _ _ _ _ _ _ _ Hwd) as [P1 [P2 P3]]. fold (pwp vals (i_val it)) in P2.
+    assert (Hnf : fin = None).
+    { destruct fin as [pr|]; [|reflexivity]. exfalso. specialize (P3 ltac:(discriminate)). rewrite Ht0 in P3.
+      assert (Hle : c_rpower (w_core w1) <= bound + pwp vals (i_val it)) by (unfold pwp in *; lia).
+      rewrite (exceeds_mono _ _ _ Hle P3) in Hex. discriminate. }
+    subst fin. split; [exact Hb1|]. exists r.
+    destruct kept as [kl|]; destruct Hres as [_ [Hr1 Hw1]]; (split; [exact Hr1|]; split; [exact Ho|]; rewrite Hw1; split; [congruence|]; split; [congruence | lia]).
+  - assert (Ef : (i_feeder it =? fid) = false) by (apply Z.eqb_neq; congruence). rewrite Ef in *. rewrite Z.add_0_r.
+    pose proof (fill_price_frame p m (i_feeder it) (i_val it) (n - 1) (i_prices it)) as [_ [_ [_ [_ [F5 _]]]]].
+    destruct (F5 fid ltac:(congruence)) as [Ea Eb]. split; [exact Hb0|]. exists r. rewrite Ea, Eb. repeat split; assumption.
+Qed.
+
+Lemma ifold_QP p vals fid : forall its m n bound, m_vals m = vals ->
+  exceeds (bound + psum vals (filter (isf fid) its)) (Tot vals) = false ->
+  QP vals fid bound m -> QP vals fid (bound + psum vals (filter (isf fid) its)) (fst (fold_left (istep p) its (m, n))).
+Proof.
+  induction its as [|it r IH]; intros m n bound Hv Hex HQ.
+  - simpl. rewrite Z.add_0_r. exact HQ.
+  - simpl fold_left. simpl filter in *.
+    assert (Hsplit : bound + psum vals (if isf fid it then it :: filter (isf fid) r else filter (isf fid) r) =
+                     (bound + (if isf fid it then pwp vals (i_val it) else 0)) + psum vals (filter (isf fid) r))
+      by (destruct (isf fid it); simpl; lia).
+    rewrite Hsplit in *.
+    pose proof (psum_nonneg vals (filter (isf fid) r)) as Hnn.
+    assert (Hex1 : exceeds (bound + (if isf fid it then pwp vals (i_val it) else 0)) (Tot vals) = false)
+      by (apply (exceeds_anti _ (bound + (if isf fid it then pwp vals (i_val it) else 0) + psum vals (filter (isf fid) r))); [lia | exact Hex]).
+    pose proof (istep_QP p vals fid bound m n it Hv Hex1 HQ) as H1.
+    assert (Hv1 : m_vals (fst (istep p (m, n) it)) = vals).
+    { unfold istep. simpl. pose proof (fill_price_frame p m (i_feeder it) (i_val it) (n - 1) (i_prices it)) as [F1 _]. congruence. }
+    destruct (istep p (m, n) it) as [m1 n1]. simpl in H1, Hv1. apply IH; assumption.
+Qed.
+
+Definition STP (vals : list (Z * Z)) (fid B mn x bound : Z) (m : mem) : Prop :=
+  (wk m fid = None /\ forall r, rd m fid = Some r -> x - B < mn -> r_open r = true) \/
+  (exists w r, wk m fid = Some w /\ w_sealed w = false /\ c_total (w_core w) = Tot vals /\ c_rpower (w_core w) <= bound /\
+               rd m fid = Some r /\ r_open r = true).
+
+Lemma block_band2 p vals msgs forced f fid B b x a bd :
+  isforced forced x = false -> params_ok p -> items_started p msgs ->
+  get_feeder (p_feeders p) fid = Some f -> f_start f <= b -> basedb f b = B -> B < x - 1 <= b -> 1 <= x - 1 ->
+  BS p vals (x - 1) a -> 0 <= bd ->
+  let m' := fst (replay_block p msgs forced a x) in
+  let ps := psum vals (filter (isf fid) (bitems msgs forced x)) in
+  ((filter (isf fid) (bitems msgs forced x) <> [] -> x - 1 - B < p_maxnonce p) -> exceeds (bd + ps) (Tot vals) = false ->
+   STP vals fid B (p_maxnonce p) (x - 1) bd (fst a) -> STP vals fid B (p_maxnonce p) x (bd + ps) m') /\
+  (x - 1 - B < p_maxnonce p -> STP vals fid B (p_maxnonce p) (x - 1) bd (fst a) -> STB fid m').
+Proof.
+  intros Hfo Hok Hits Hf Hst HB Hx Hx1 [HR HG] Hbd0. destruct a as [m n]. simpl in HR, HG. intros m' ps. unfold m'. rewrite replay_block_unfold. simpl fst.
+  pose proof Hok as [ND [Hmn [NE HI]]]. destruct (get_feeder_some _ _ _ Hf) as [Hin Hid]. destruct (HI _ Hin) as [HI1 HS1].
+  destruct (based_range f b (x - 1) HI1 Hst ltac:(lia)) as [R1 [R2 [R3 R4]]]. rewrite HB in R1, R3.
+  pose proof (prepare_RT_mem p (x - 1) m Hok HR) as HR1. destruct (prepare_GR p vals (x - 1) m n Hok HG) as [HG1 _].
+  pose proof (prepare_mem_at p (x - 1) m ND Hx1) as [_ [_ [_ [_ [_ [_ [B7 B8]]]]]]].
+  specialize (B7 fid). specialize (B8 fid). rewrite Hf, (inactive_ok p f (x - 1) Hok Hin) in B7, B8.
+  destruct (x - 1 <? f_start f) eqn:Ea; [apply Z.ltb_lt in Ea; lia|].
+  assert (E0 : (leftb f (x - 1) =? 0) = false) by (apply Z.eqb_neq; lia). rewrite E0 in B8.
+  assert (B8' : wk (fst (prepare p (x - 1) m)) fid = wk m fid) by (rewrite B8; destruct (rd m fid); reflexivity).
+  set (m1 := fst (prepare p (x - 1) m)) in *.
+  set (r1 := prep_one (p_maxnonce p) (x - 1) f (rd m fid)) in *.
+  assert (Hv1 : m_vals m1 = vals) by (destruct HG1 as [_ [G2 _]]; exact G2).
+  assert (Ho1 : x - 1 - B < p_maxnonce p -> (forall r, rd m fid = Some r -> x - 1 - B < p_maxnonce p -> r_open r = true) -> r_open r1 = true).
+  { intros Hw Hop. unfold r1, prep_one. destruct (rd m fid) as [r|].
+    - rewrite E0. specialize (Hop r eq_refl Hw). rewrite Hop. destruct (p_maxnonce p <=? leftb f (x - 1)) eqn:E; [apply Z.leb_le in E; lia|]. simpl. exact Hop.
+    - simpl. destruct (p_maxnonce p <=? leftb f (x - 1)) eqn:E; [apply Z.leb_le in E; lia | reflexivity]. }
+  assert (Ho2 : forall r, rd m fid = Some r -> r_open r = true -> r1 = r).
+  { intros r Hr Hop. destruct HR as [_ Hmid]. destruct (Hmid fid r Hr) as [f' [Hf' [Hs' [Hb [_ Hol]]]]]. rewrite Hf in Hf'. inversion Hf'; subst f'.
+    specialize (Hol Hop). destruct (based_range f b (x - 1 - 1) HI1 Hst ltac:(lia)) as [R1' _]. rewrite HB in R1'. rewrite R1' in Hb. rewrite Hb in Hol.
+    unfold r1, prep_one. rewrite Hr, E0, Hop. destruct (p_maxnonce p <=? leftb f (x - 1)) eqn:E; [apply Z.leb_le in E; lia | reflexivity]. }
+  destruct (ifold p vals (x - 1) fid 0 0 Hok (bitems msgs forced x) m1 n [] HR1 HG1 (bitems_started p msgs forced x Hits)) as [HR2 _].
+  pose proof (ifold_frame p fid (bitems msgs forced x) m1 n) as Hfr.
+  pose proof (ifold_QS p fid (bitems msgs forced x) m1 n) as HQ.
+  pose proof (ifold_QP p vals fid (bitems msgs forced x) m1 n bd Hv1) as HP. fold ps in HP.
+  destruct (fold_left (istep p) (bitems msgs forced x) (m1, n)) as [m2 n2]. simpl in HR2, Hfr, HQ, HP.
+  destruct HR2 as [S2 [Hsound2 _]].
+  assert (Hb2 : forall r2, rd m2 fid = Some r2 -> r_based r2 = B).
+  { intros r2 Hr2. destruct (Hsound2 fid r2 Hr2) as [f' [Hf' [_ [Hb _]]]]. rewrite Hf in Hf'. inversion Hf'; subst f'. rewrite Hb. exact R1. }
+  pose proof (seal_mem_at p x (isforced forced x) m2 NE S2) as [_ [_ [_ [_ [_ [_ [A7 A8]]]]]]].
+  specialize (A7 fid). specialize (A8 fid). rewrite Hfo in *. simpl.
+  set (m3 := fst (fst (seal p x false m2))) in *.
+  (* what the seal of block x does to feeder fid, given its round r2 and worker after the items *)
+  assert (Hseal : forall r2 bd', rd m2 fid = Some r2 -> r_open r2 = true ->
+            match wk m2 fid with None => True | Some w => w_sealed w = false /\ c_total (w_core w) = Tot vals /\ c_rpower (w_core w) <= bd' end ->
+            STP vals fid B (p_maxnonce p) x bd' m3).
+  { intros r2 bd' Hr2 Hop2 Hw2. rewrite Hr2 in A7, A8. rewrite Hf in A8. simpl in A7.
+    pose proof (Hb2 r2 Hr2) as Hbb.
+    destruct (closing p x false r2) eqn:Ec.
+    - left. split; [exact A8|]. intros r Hr Hw. exfalso. unfold closing in Ec. rewrite Hop2, Hbb, orb_false_r in Ec. simpl in Ec. apply Z.leb_le in Ec. lia.
+    - assert (Es : seal_one p x false fid r2 = r2) by (unfold seal_one; rewrite Hf; unfold closing in Ec; rewrite Ec; reflexivity).
+      rewrite Es in A7. destruct (wk m2 fid) as [w|].
+      + destruct Hw2 as [W1 [W2 W3]]. rewrite W1 in A8. right. exists w, r2. repeat split; assumption.
+      + left. split; [exact A8|]. intros r Hr _. rewrite A7 in Hr. inversion Hr; subst r. exact Hop2. }
+  split.
+  - intros Hwin Hex HST.
+    destruct (filter (isf fid) (bitems msgs forced x)) as [|i0 ir] eqn:Efi.
+    + assert (Eps : ps = 0) by (unfold ps; try rewrite Efi; reflexivity). rewrite Eps, Z.add_0_r.
+      destruct (Hfr eq_refl) as [F1 F2]. rewrite B7 in F1. rewrite B8' in F2.
+      destruct HST as [[Hwn Hop]|[w [r [Hw [Hs [Ht [Hp [Hr Hopr]]]]]]]].
+      * rewrite F1 in A7, A8. rewrite F2, Hwn, Hf in A8. simpl in A7. left. split.
+        -- rewrite A8. destruct (closing p x false r1); reflexivity.
+        -- intros r Hr Hw. rewrite A7 in Hr. inversion Hr; subst r.
+           assert (Hop1 : r_open r1 = true) by (apply Ho1; [lia | intros r' Hr' _; apply Hop; [exact Hr' | lia]]).
+           assert (Ec : closing p x false r1 = false).
+           { unfold closing. rewrite (Hb2 r1 F1), Hop1. simpl. rewrite orb_false_r. apply Z.leb_gt. lia. }
+           unfold seal_one. rewrite Hf. unfold closing in Ec. rewrite Ec. exact Hop1.
+      * pose proof (Ho2 r Hr Hopr) as E1. apply (Hseal r bd); [rewrite F1, E1; reflexivity | exact Hopr|].
+        rewrite F2, Hw. repeat split; assumption.
+    + assert (Hw : x - 1 - B < p_maxnonce p) by (apply Hwin; discriminate).
+      assert (HQP1 : QP vals fid bd m1).
+      { split; [exact Hbd0|]. exists r1. split; [exact B7|]. rewrite B8'.
+        destruct HST as [[Hwn Hop]|[w [r [Hww [Hs [Ht [Hp [Hr Hopr]]]]]]]].
+        - split; [apply Ho1; [exact Hw | intros r' Hr' _; apply Hop; [exact Hr' | lia]]|]. rewrite Hwn. exact I.
+        - rewrite (Ho2 r Hr Hopr). split; [exact Hopr|]. rewrite Hww. repeat split; assumption. }
+      destruct (HP Hex HQP1) as [_ [r2 [Hr2 [Hop2 Hw2]]]]. apply (Hseal r2 (bd + ps) Hr2 Hop2 Hw2).
+  - intros Hw HST.
+    assert (HQ1 : QS fid m1).
+    { exists r1. split; [exact B7|]. rewrite B8'.
+      destruct HST as [[Hwn Hop]|[w [r [Hww [Hs [Ht [Hp [Hr Hopr]]]]]]]].
+      - rewrite Hwn. apply Ho1; [exact Hw | intros r' Hr' _; apply Hop; [exact Hr' | lia]].
+      - rewrite Hww. right. split; [exact Hs|]. rewrite (Ho2 r Hr Hopr). exact Hopr. }
+    destruct (HQ HQ1) as [r2 [Hr2 Hw2]]. rewrite Hr2 in A7, A8. rewrite Hf in A8. unfold STB. rewrite A8.
+    destruct (closing p x false r2) eqn:Ec; [exact I|].
+    destruct (wk m2 fid) as [w|]; [|exact I]. destruct (w_sealed w) eqn:Es; [exact I|].
+    destruct Hw2 as [Hw2|[_ Hop2]]; [discriminate|]. split; [exact Es|]. exists r2. split; [|exact Hop2].
+    rewrite A7. simpl. unfold seal_one. rewrite Hf. unfold closing in Ec. rewrite Ec. reflexivity.
+Qed.
+
+Fixpoint wsum (vals : list (Z * Z)) (msgs : list (Z * list item)) (fid x1 from : Z) (n : nat) : Z :=
+  match n with
+  | O => 0
+  | S k => (if from <? x1 then psum vals (filter (isf fid) (lookupB msgs from)) else 0) + wsum vals msgs fid x1 (from + 1) k
+  end.
+
+Lemma wsum_nonneg vals msgs fid x1 : forall n from, 0 <= wsum vals msgs fid x1 from n.
+Proof.
+  induction n as [|n IH]; intro from; simpl; [lia|]. specialize (IH (from + 1)).
+  pose proof (psum_nonneg vals (filter (isf fid) (lookupB msgs from))). destruct (from <? x1); lia.
+Qed.
+
+Lemma STP_STB vals fid B mn x bd m : STP vals fid B mn x bd m -> STB fid m.
+Proof.
+  unfold STB. intros [[Hn _]|[w [r [Hw [Hs [_ [_ [Hr Ho]]]]]]]]; [rewrite Hn; exact I|]. rewrite Hw. split; [exact Hs|]. exists r. split; assumption.
+Qed.
+
+Lemma replay_all_band2 p vals msgs f fid B b x1 :
+  params_ok p -> items_started p msgs ->
+  get_feeder (p_feeders p) fid = Some f -> f_start f <= b -> basedb f b = B ->
+  (forall x, filter (isf fid) (lookupB msgs x) <> [] -> B < x - 1 <= b -> x - 1 - B < p_maxnonce p) ->
+  forall n from a bd, B < from - 1 -> 1 <= from - 1 -> from + Z.of_nat n - 1 <= b -> 0 <= bd ->
+  (forall x, x1 < x -> from <= x -> filter (isf fid) (lookupB msgs x) = []) ->
+  (from <= x1 -> exceeds (bd + wsum vals msgs fid x1 from n) (Tot vals) = false) ->
+  BS p vals (from - 1) a ->
+  (if from <=? x1 then STP vals fid B (p_maxnonce p) (from - 1) bd (fst a) else STB fid (fst a)) ->
+  STB fid (fst (fold_left (replay_block p msgs None) (zrange from n) a)).
+Proof.
+  intros Hok Hits Hf Hst HB Hwin.
+  induction n as [|n IH]; intros from a bd HfromB Hfrom1 Hend Hbd Hni Hex HBS HST.
+  - simpl. destruct (from <=? x1); [eapply STP_STB; exact HST | exact HST].
+  - simpl zrange. simpl fold_left. simpl wsum in Hex.
+    assert (HBS' : BS p vals (from + 1 - 1) (replay_block p msgs None a from)) by (replace (from + 1 - 1) with from by lia; apply block_BS; assumption).
+    destruct (block_band p vals msgs None f fid B b from a eq_refl Hok Hits Hf Hst HB ltac:(lia) Hfrom1 HBS) as [_ [_ K3]].
+    destruct (block_band2 p vals msgs None f fid B b from a bd eq_refl Hok Hits Hf Hst HB ltac:(lia) Hfrom1 HBS Hbd) as [K1 K2].
+    change (bitems msgs None from) with (lookupB msgs from) in K1, K2, K3.
+    pose proof (wsum_nonneg vals msgs fid x1 n (from + 1)) as Hwn.
+    pose proof (psum_nonneg vals (filter (isf fid) (lookupB msgs from))) as Hpn.
+    assert (Hw1 : filter (isf fid) (lookupB msgs from) <> [] -> from - 1 - B < p_maxnonce p) by (intro Hne; apply Hwin; [exact Hne | lia]).
+    destruct (from <=? x1) eqn:E1; [apply Z.leb_le in E1 | apply Z.leb_gt in E1].
+    + destruct (from <? x1) eqn:E2; [apply Z.ltb_lt in E2 | apply Z.ltb_ge in E2].
+      * apply (IH (from + 1) _ (bd + psum vals (filter (isf fid) (lookupB msgs from)))); try lia; try assumption.
+        -- intros x Hx Hx'. apply Hni; lia.
+        -- intros _. rewrite <- Z.add_assoc. apply Hex. lia.
+        -- replace (from + 1 - 1) with from by lia.
+           destruct (from + 1 <=? x1) eqn:E3; [|apply Z.leb_gt in E3; lia].
+           apply K1; [exact Hw1 | (eapply exceeds_anti; [|apply Hex; lia]; lia) | exact HST].
+      * assert (from = x1) by lia. subst x1.
+        apply (IH (from + 1) _ 0); try lia; try assumption.
+        -- intros x Hx Hx'. apply Hni; lia.
+        -- destruct (from + 1 <=? from) eqn:E3; [apply Z.leb_le in E3; lia|].
+           destruct (filter (isf fid) (lookupB msgs from)) as [|i0 ir] eqn:Efi.
+           ++ eapply STP_STB. apply K1; [intro Hne; congruence | (eapply exceeds_anti; [|apply Hex; lia]; simpl; lia) | exact HST].
+           ++ apply K2; [apply Hw1; discriminate | exact HST].
+    + apply (IH (from + 1) _ 0); try lia; try assumption.
+      * intros x Hx Hx'. apply Hni; lia.
+      * destruct (from + 1 <=? x1) eqn:E3; [apply Z.leb_le in E3; lia|].
+        apply K3; [apply Hni; lia | exact HST].
+Qed.
+
 (* ---- (c) what recache builds, feeder by feeder ----------------------------------------------------------------- *)
 Definition params_ok2 (p : params) : Prop := params_ok p /\ forall f, In f (p_feeders p) -> 2 * p_maxnonce p <= f_interval f.
 Definition vub_old (p : params) (s : store) (H : Z) : Prop :=
@@ -1387,7 +1775,13 @@ Lemma recache_window p s H :
      Topen vals fid (basedb f (H - 1)) (nextb f (H - 1)) mr (itemsF fid (basedb f (H - 1)) msgs)) /\
   (forall f fid v, get_feeder (p_feeders p) fid = Some f -> f_start f <= H - 1 -> leftb f (H - 1) < p_maxnonce p ->
      s_vub s = Some v -> basedb f (H - 1) < v ->
-     Tclosed fid (basedb f (H - 1)) (nextb f (H - 1)) mr).
+     Tclosed fid (basedb f (H - 1)) (nextb f (H - 1)) mr) /\
+  (forall f fid, get_feeder (p_feeders p) fid = Some f -> f_start f <= H - 1 -> p_maxnonce p <= leftb f (H - 1) ->
+     ((exists v, s_vub s = Some v /\ H - p_maxnonce p + 1 <= v) \/
+      (exists x1, forall x, H - p_maxnonce p + 1 <= x -> x <> x1 -> filter (isf fid) (lookupB msgs x) = []) \/
+      (exists x1, (forall x, x1 < x -> H - p_maxnonce p + 1 <= x -> filter (isf fid) (lookupB msgs x) = []) /\
+                  exceeds (wsum vals msgs fid x1 (H - p_maxnonce p + 1) (Z.to_nat (p_maxnonce p - 1))) (Tot vals) = false)) ->
+     wk mr fid = None).
 Proof.
   intros [Hok Hint] HS HIV vals mr msgs. pose proof Hok as [ND [Hmn [NE HI]]].
   pose proof (store_items_started p H s HS) as Hits. destruct HS as [Sm [Hm Hvlt]]. fold msgs in Sm, Hm, Hits.
@@ -1426,7 +1820,7 @@ Proof.
     unfold lookupB in Hin'. destruct (aget x msgs) as [l|] eqn:El; [|destruct Hin']. apply aget_In in El.
     destruct (Hm _ _ El) as [_ Hmo]. destruct (Hmo it Hin') as [f' [Hf' [Hs' Hl']]]. rewrite Hisf, Hf in Hf'. inversion Hf'; subst f'.
     exists l. repeat split; assumption. }
-  split; [|split; [|split]].
+  split; [|split; [|split; [|split]]].
   - pose proof (prepare_RT_mem p (H - 1) (fst ae) Hok HRe) as HRr. rewrite <- Emr in HRr.
     destruct HGr as [G1 [G2 [G3 [G4 [G5 [G6 [G7 G8]]]]]]]. repeat split; try assumption; try (apply HRr).
     intros g w u k Hw Hin. apply (G8 g w u k Hw Hin).
@@ -1491,6 +1885,67 @@ Proof.
       - replace (from + 1 - 1) with from by lia. exact HB1. }
     rewrite Emr. unfold ae. simpl zrange. simpl fold_left.
     apply (prepare_closed p f fid B nx (H - 1) (H - 1)); try assumption; try reflexivity; lia.
+  - intros f fid Hf Hst Hidle Hcond. fold mn from0 in Hcond. fold mn in Hidle.
+    destruct (get_feeder_some _ _ _ Hf) as [Hin Hid]. destruct (HI _ Hin) as [HI1 HS1]. specialize (Hint _ Hin). fold mn in Hint.
+    set (B := basedb f (H - 1)) in *.
+    assert (HBi : mn <= H - 1 - B) by (unfold B, basedb; lia).
+    destruct (based_range f (H - 1) B HI1 Hst ltac:(lia)) as [_ [_ [_ HstB]]].
+    assert (Hwinx : forall x it, from0 <= x -> In it (filter (isf fid) (lookupB msgs x)) ->
+              x - 1 - B < mn /\ x <= H - 1 /\ basedb f (x - 1) = B).
+    { intros x it Hx Hin'. destruct (Hitem f fid x it Hf Hin') as [l [Hl [_ [_ [Hs' Hl']]]]]. specialize (Hkeys _ Hl). simpl in Hkeys.
+      assert (HBx : B <= x - 1).
+      { destruct (Z_le_dec B (x - 1)) as [L|L]; [exact L|]. exfalso.
+        pose proof (based_prev f (H - 1) (x - 1) HI1 Hs' ltac:(fold B; lia) Hst) as Hp. fold B in Hp. unfold basedb in Hp. unfold from0 in Hx. lia. }
+      destruct (based_range f (H - 1) (x - 1) HI1 Hst ltac:(fold B; lia)) as [Rb [_ [Rl _]]]. fold B in Rb, Rl. repeat split; lia. }
+    destruct (wk mr fid) as [w|] eqn:E; [|reflexivity]. apply Hsubr in E.
+    assert (Hnone : wk (fst ae) fid = None); [|rewrite Hnone in E; discriminate].
+    destruct forced as [v|] eqn:Efo.
+    + destruct (Hforced v eq_refl) as [Ev [Efr Hv0]].
+      apply (replay_all_none p vals msgs (Some v) fid Hok Hits n from a0 HB0); [reflexivity|]. intros x Hx.
+      unfold bitems. destruct (isforced (Some v) x) eqn:Ei; [reflexivity|]. simpl in Ei. apply Z.eqb_neq in Ei.
+      destruct (filter (isf fid) (lookupB msgs x)) as [|it r] eqn:E'; [reflexivity|]. exfalso.
+      assert (Hit : In it (filter (isf fid) (lookupB msgs x))) by (rewrite E'; left; reflexivity).
+      destruct (Hwinx x it ltac:(lia) Hit) as [W1 [W2 W3]].
+      destruct (Hitem f fid x it Hf Hit) as [l [Hl [Hil [Hfe _]]]].
+      pose proof (HIV x l it f Hl Hil ltac:(rewrite Hfe; exact Hf)) as Hrel. unfold vubrel in Hrel. rewrite Ev, W3 in Hrel.
+      unfold from0 in *. lia.
+    + assert (Efr : from = from0) by (unfold from; destruct (s_vub s) as [v'|]; [specialize (Hunforced eq_refl); simpl in Hunforced; destruct (from0 <=? v') eqn:E'; [apply Z.leb_le in E'; lia | reflexivity] | reflexivity]).
+      destruct Hcond as [[v [Hv Hv0]]|[[x1 Hx1]|[x1 [Hx1a Hx1b]]]].
+      * exfalso. specialize (Hunforced eq_refl). rewrite Hv in Hunforced. unfold from0 in *. lia.
+      * destruct (Z_lt_dec x1 from0) as [Lx|Lx].
+        { apply (replay_all_none p vals msgs None fid Hok Hits n from a0 HB0); [reflexivity|]. intros x Hx.
+          apply bitems_filter_nil. apply Hx1; [unfold from0 in *; lia | lia]. }
+        assert (Hw : filter (isf fid) (bitems msgs None x1) <> [] -> x1 - 1 - B < mn).
+        { unfold bitems. simpl. intro Hne. destruct (filter (isf fid) (lookupB msgs x1)) as [|it r] eqn:E'; [congruence|].
+          destruct (Hwinx x1 it ltac:(lia) ltac:(rewrite E'; left; reflexivity)) as [W1 _]. exact W1. }
+        pose proof (replay_all_band p vals msgs None f fid B (H - 1) x1 Hok Hits Hf Hst eq_refl (fun _ => eq_refl) Hw n from a0
+                      ltac:(unfold from0 in *; lia) ltac:(unfold from0 in *; lia) ltac:(lia)) as Hband.
+        assert (Hni : forall x, from <= x -> x <> x1 -> filter (isf fid) (bitems msgs None x) = []).
+        { intros x Hx Hne. apply bitems_filter_nil. apply Hx1; [unfold from0 in *; lia | exact Hne]. }
+        assert (HST0 : if from <=? x1 then STA fid B mn (from - 1) (fst a0) else STB fid (fst a0)).
+        { destruct (from <=? x1); [split; [reflexivity | intros r Hr; discriminate] | exact I]. }
+        specialize (Hband Hni HB0 HST0). simpl in Hband. fold ae in Hband.
+        destruct (from + Z.of_nat n <=? x1); [destruct Hband as [Hn _]; exact Hn|].
+        unfold STB in Hband. destruct (wk (fst ae) fid) as [w'|]; [|reflexivity]. exfalso.
+        destruct Hband as [_ [r [Hr Hop]]]. destruct HRe as [_ Hmid]. destruct (Hmid fid r Hr) as [f' [Hf' [_ [Hb [_ Hol]]]]].
+        rewrite Hf in Hf'. inversion Hf'; subst f'. specialize (Hol Hop).
+        destruct (based_range f (H - 1) (H - 1 - 1) HI1 Hst ltac:(fold B; lia)) as [Rb _]. fold B in Rb. rewrite Rb in Hb. lia.
+      * assert (Hwin2 : forall x, filter (isf fid) (lookupB msgs x) <> [] -> B < x - 1 <= H - 1 -> x - 1 - B < mn).
+        { intros x Hne Hx. destruct (filter (isf fid) (lookupB msgs x)) as [|it r] eqn:E'; [congruence|].
+          destruct (Hitem f fid x it Hf ltac:(rewrite E'; left; reflexivity)) as [l [_ [_ [_ [_ Hl']]]]].
+          destruct (based_range f (H - 1) (x - 1) HI1 Hst ltac:(fold B; lia)) as [_ [_ [Rl _]]]. fold B in Rl. lia. }
+        assert (Hni : forall x, x1 < x -> from <= x -> filter (isf fid) (lookupB msgs x) = []).
+        { intros x Hx Hx'. apply Hx1a; [exact Hx | unfold from0 in *; lia]. }
+        assert (Hex : from <= x1 -> exceeds (0 + wsum vals msgs fid x1 from n) (Tot vals) = false).
+        { intros _. simpl. unfold n. rewrite Efr. replace (H - from0) with (mn - 1) by (unfold from0; lia). exact Hx1b. }
+        assert (HST0 : if from <=? x1 then STP vals fid B mn (from - 1) 0 (fst a0) else STB fid (fst a0)).
+        { destruct (from <=? x1); [left; split; [reflexivity | intros r Hr; discriminate] | exact I]. }
+        pose proof (replay_all_band2 p vals msgs f fid B (H - 1) x1 Hok Hits Hf Hst eq_refl Hwin2 n from a0 0
+                      ltac:(unfold from0 in *; lia) ltac:(unfold from0 in *; lia) ltac:(lia) ltac:(lia) Hni Hex HB0 HST0) as Hband.
+        fold ae in Hband. unfold STB in Hband. destruct (wk (fst ae) fid) as [w'|]; [|reflexivity]. exfalso.
+        destruct Hband as [_ [r [Hr Hop]]]. destruct HRe as [_ Hmid]. destruct (Hmid fid r Hr) as [f' [Hf' [_ [Hb [_ Hol]]]]].
+        rewrite Hf in Hf'. inversion Hf'; subst f'. specialize (Hol Hop).
+        destruct (based_range f (H - 1) (H - 1 - 1) HI1 Hst ltac:(fold B; lia)) as [Rb _]. fold B in Rb. rewrite Rb in Hb. lia.
 Qed.
 
 (* ---- the invariant IVs over histories --------------------------------------------------------------------------- *)
@@ -1583,6 +2038,30 @@ Definition band_clear (p : params) (st : state) : Prop :=
   forall f, In f (p_feeders p) -> f_start f <= st_h st - 1 -> p_maxnonce p <= leftb f (st_h st - 1) ->
     forall x, st_h st - p_maxnonce p + 1 <= x -> filter (isf (f_id f)) (lookupB (s_msgs (st_store st)) x) = [].
 
+(* weaker than [band_clear]: a feeder that has just left its window may have items inside the replay window as long as they all
+   lie in ONE block, or the replay starts at a validator-set change (then none of them is replayed at all) *)
+Definition band_single (p : params) (st : state) : Prop :=
+  forall f, In f (p_feeders p) -> f_start f <= st_h st - 1 -> p_maxnonce p <= leftb f (st_h st - 1) ->
+    (exists v, s_vub (st_store st) = Some v /\ st_h st - p_maxnonce p + 1 <= v) \/
+    exists x1, forall x, st_h st - p_maxnonce p + 1 <= x -> x <> x1 -> filter (isf (f_id f)) (lookupB (s_msgs (st_store st)) x) = [].
+
+Lemma band_clear_single p st : band_clear p st -> band_single p st.
+Proof. intros Hb f Hin Hst Hl. right. exists 0. intros x Hx _. apply (Hb f Hin Hst Hl x Hx). Qed.
+
+(* weaker still: ... or the feeder's items inside the replay window that lie BEFORE its last item block come from validators
+   whose (non-negative parts of the) voting powers, summed per item, do not exceed the 2/3 threshold - then the replayed suffix
+   cannot finalize before that last block, whatever the calculator does *)
+Definition band_weak (p : params) (st : state) : Prop :=
+  forall f, In f (p_feeders p) -> f_start f <= st_h st - 1 -> p_maxnonce p <= leftb f (st_h st - 1) ->
+    (exists v, s_vub (st_store st) = Some v /\ st_h st - p_maxnonce p + 1 <= v) \/
+    (exists x1, forall x, st_h st - p_maxnonce p + 1 <= x -> x <> x1 -> filter (isf (f_id f)) (lookupB (s_msgs (st_store st)) x) = []) \/
+    (exists x1, (forall x, x1 < x -> st_h st - p_maxnonce p + 1 <= x -> filter (isf (f_id f)) (lookupB (s_msgs (st_store st)) x) = []) /\
+                exceeds (wsum (s_vals (st_store st)) (s_msgs (st_store st)) (f_id f) x1 (st_h st - p_maxnonce p + 1) (Z.to_nat (p_maxnonce p - 1)))
+                        (Tot (s_vals (st_store st))) = false).
+
+Lemma band_single_weak p st : band_single p st -> band_weak p st.
+Proof. intros Hb f Hin Hst Hl. destruct (Hb f Hin Hst Hl) as [A|A]; [left; exact A | right; left; exact A]. Qed.
+
 (* every round that is still inside its submission window is open in the live memory (= none was finalized by a tx, none
    was force-sealed without the validator update being recorded) *)
 (* every round that is still inside its submission window is open in the live memory, or was force-sealed by the last
@@ -1617,8 +2096,8 @@ Lemma erase_ext a b : m_vals a = m_vals b -> m_rounds a = m_rounds b -> erase_ws
   m_msgs a = m_msgs b -> m_cvals a = m_cvals b -> m_vupd a = m_vupd b -> m_panic a = m_panic b -> erase a = erase b.
 Proof. destruct a, b. unfold erase, set_workers. simpl. intros. congruence. Qed.
 
-Theorem synced_iff_window_open p st :
-  params_ok2 p -> LIVE p st -> Jbound p st -> safe (st_store st) (st_mem st) -> IVst p st -> band_clear p st ->
+Theorem synced_iff_window_open_weak p st :
+  params_ok2 p -> LIVE p st -> Jbound p st -> safe (st_store st) (st_mem st) -> IVst p st -> band_weak p st ->
   (synced p st <-> window_open p st).
 Proof.
   intros Hok2 HL HJb Hsafe [HIV _] Hband. pose proof Hok2 as [Hok Hint]. pose proof Hok as [ND [Hmn [NE HI]]].
@@ -1626,7 +2105,7 @@ Proof.
   destruct HJb as [_ [Hmsg0 [Hvupd0 Hbw]]].
   destruct HJ as [Hh [HRT [Hsw [Hwo [Hp [Hv Hc]]]]]].
   set (s := st_store st) in *. set (m := st_mem st) in *. set (H := st_h st) in *.
-  destruct (recache_window p s H Hok2 HS HIV) as [[RRT [RS [RV [RC [RM [RU [RP RN]]]]]]] [Rnone [Rtrack Rclosed]]].
+  destruct (recache_window p s H Hok2 HS HIV) as [[RRT [RS [RV [RC [RM [RU [RP RN]]]]]]] [Rnone [Rtrack [Rclosed Rband]]]].
   set (mr := recache p s H) in *.
   assert (Hwin : forall f, In f (p_feeders p) -> f_start f <= H - 1 -> leftb f (H - 1) < p_maxnonce p ->
             exists r, rd m (f_id f) = Some r /\ r_based r = basedb f (H - 1) /\ r_next r = nextb f (H - 1) /\
@@ -1666,15 +2145,23 @@ Proof.
   { intros fid Hno. split.
     - destruct (wk m fid) as [w|] eqn:Ew; [|reflexivity]. exfalso. destruct (Hbw _ _ Ew) as [r [Hr Hop]].
       destruct HRT as [_ [Hsound _]]. destruct (Hsound _ _ Hr) as [f [Hf [Hst [_ [_ Hol]]]]]. apply (Hno f Hf). split; [exact Hst | apply Hol; exact Hop].
-    - apply Rnone. intros x Hx. destruct (filter (isf fid) (lookupB (s_msgs s) x)) as [|it r] eqn:E; [reflexivity|]. exfalso.
+    - destruct (get_feeder (p_feeders p) fid) as [fb|] eqn:Efb.
+      { destruct (Z_le_dec (f_start fb) (H - 1)) as [Hsb|Hsb]; [destruct (Z_le_dec (p_maxnonce p) (leftb fb (H - 1))) as [Lb|Lb]|].
+        - destruct (get_feeder_some _ _ _ Efb) as [Hinb Hidb].
+          apply (Rband fb fid Efb Hsb Lb). pose proof (Hband fb Hinb Hsb Lb) as Hb. fold s H in Hb. rewrite Hidb in Hb. exact Hb.
+        - exfalso. apply (Hno fb eq_refl). split; lia.
+        - apply Rnone. intros x Hx. destruct (filter (isf fid) (lookupB (s_msgs s) x)) as [|it r] eqn:E; [reflexivity|]. exfalso.
+          assert (Hin' : In it (filter (isf fid) (lookupB (s_msgs s) x))) by (rewrite E; left; reflexivity).
+          apply filter_In in Hin'. destruct Hin' as [Hin' Hisf]. unfold isf in Hisf. apply Z.eqb_eq in Hisf.
+          unfold lookupB in Hin'. destruct (aget x (s_msgs s)) as [l|] eqn:El; [|destruct Hin']. apply aget_In in El.
+          destruct HS as [_ [Hm _]]. destruct (Hm _ _ El) as [Hxl Hmo]. destruct (Hmo it Hin') as [f [Hf [Hs' Hl']]]. rewrite Hisf in Hf.
+          rewrite Efb in Hf. inversion Hf; subst f. lia. }
+      apply Rnone. intros x Hx. destruct (filter (isf fid) (lookupB (s_msgs s) x)) as [|it r] eqn:E; [reflexivity|]. exfalso.
       assert (Hin' : In it (filter (isf fid) (lookupB (s_msgs s) x))) by (rewrite E; left; reflexivity).
       apply filter_In in Hin'. destruct Hin' as [Hin' Hisf]. unfold isf in Hisf. apply Z.eqb_eq in Hisf.
       unfold lookupB in Hin'. destruct (aget x (s_msgs s)) as [l|] eqn:El; [|destruct Hin']. apply aget_In in El.
       destruct HS as [_ [Hm _]]. destruct (Hm _ _ El) as [Hxl Hmo]. destruct (Hmo it Hin') as [f [Hf [Hs' Hl']]]. rewrite Hisf in Hf.
-      destruct (get_feeder_some _ _ _ Hf) as [Hinf Hid].
-      destruct (Z_lt_dec (leftb f (H - 1)) (p_maxnonce p)) as [Lw|Lw].
-      + apply (Hno f Hf). split; [lia | exact Lw].
-      + pose proof (Hband f Hinf ltac:(fold H; lia) ltac:(fold H; lia) x Hx) as Hb. fold s in Hb. rewrite Hid in Hb. rewrite Hb in E. discriminate. }
+      rewrite Efb in Hf. discriminate. }
   split.
   - intros [_ [_ [He _]]] f r Hin Hst Hl Hr. simpl in He. fold s H mr in He.
     destruct (erase_eq_fields _ _ He) as [_ [Er _]]. fold m in Er.
@@ -1738,6 +2225,16 @@ Proof.
       * intros fid w Hw. destruct (Hwk fid) as [_ Hx]. apply (Hx w Hw).
 Qed.
 
+Theorem synced_iff_window_open_single p st :
+  params_ok2 p -> LIVE p st -> Jbound p st -> safe (st_store st) (st_mem st) -> IVst p st -> band_single p st ->
+  (synced p st <-> window_open p st).
+Proof. intros. apply synced_iff_window_open_weak; try assumption. apply band_single_weak. assumption. Qed.
+
+Theorem synced_iff_window_open p st :
+  params_ok2 p -> LIVE p st -> Jbound p st -> safe (st_store st) (st_mem st) -> IVst p st -> band_clear p st ->
+  (synced p st <-> window_open p st).
+Proof. intros. apply synced_iff_window_open_single; try assumption. apply band_clear_single. assumption. Qed.
+
 (* ---- decidable versions of the hypotheses (for examples and for the [thm] correspondence check) ------------------ *)
 Definition band_clear_b (p : params) (st : state) : bool :=
   forallb (fun f => (st_h st - 1 <? f_start f) || (leftb f (st_h st - 1) <? p_maxnonce p) ||
@@ -1759,6 +2256,69 @@ Proof.
     apply aget_In in E. rewrite forallb_forall in Hb. specialize (Hb _ E). simpl in Hb.
     apply orb_prop in Hb. destruct Hb as [Hb|Hb]; [apply Z.ltb_lt in Hb; lia|].
     destruct (filter (isf (f_id f)) l); [reflexivity | discriminate].
+Qed.
+
+Definition band_blocks (p : params) (st : state) (fid : Z) : list (Z * list item) :=
+  filter (fun e => (st_h st - p_maxnonce p + 1 <=? fst e) && match filter (isf fid) (snd e) with [] => false | _ => true end)
+         (s_msgs (st_store st)).
+Definition band_single_b (p : params) (st : state) : bool :=
+  forallb (fun f => (st_h st - 1 <? f_start f) || (leftb f (st_h st - 1) <? p_maxnonce p) ||
+                    match s_vub (st_store st) with Some v => st_h st - p_maxnonce p + 1 <=? v | None => false end ||
+                    match band_blocks p st (f_id f) with [] => true | [_] => true | _ => false end) (p_feeders p).
+
+Lemma band_blocks_mem p st fid x :
+  st_h st - p_maxnonce p + 1 <= x -> filter (isf fid) (lookupB (s_msgs (st_store st)) x) <> [] ->
+  exists l, In (x, l) (band_blocks p st fid).
+Proof.
+  intros Hx Hne. unfold lookupB in Hne. destruct (aget x (s_msgs (st_store st))) as [l|] eqn:E; [|exfalso; apply Hne; reflexivity].
+  apply aget_In in E. exists l. unfold band_blocks. apply filter_In. split; [exact E|]. simpl.
+  apply andb_true_intro. split; [apply Z.leb_le; exact Hx|]. destruct (filter (isf fid) l) as [|i0 r0]; [exfalso; apply Hne; reflexivity | reflexivity].
+Qed.
+
+Lemma band_single_b_sound p st : band_single_b p st = true -> band_single p st.
+Proof.
+  unfold band_single_b, band_single. intros Hb f Hin Hst Hl. rewrite forallb_forall in Hb. specialize (Hb f Hin).
+  apply orb_prop in Hb. destruct Hb as [Hb|Hb]; [apply orb_prop in Hb; destruct Hb as [Hb|Hb]|].
+  - apply orb_prop in Hb. destruct Hb as [Hb|Hb]; [apply Z.ltb_lt in Hb; lia | apply Z.ltb_lt in Hb; lia].
+  - left. destruct (s_vub (st_store st)) as [v|]; [|discriminate]. exists v. split; [reflexivity | apply Z.leb_le; exact Hb].
+  - right. pose proof (band_blocks_mem p st (f_id f)) as Hmem.
+    destruct (band_blocks p st (f_id f)) as [|e1 [|e2 r]]; [| |discriminate].
+    + exists 0. intros x Hx _. destruct (filter (isf (f_id f)) (lookupB (s_msgs (st_store st)) x)) as [|i0 r0] eqn:E; [reflexivity|].
+      destruct (Hmem x Hx ltac:(rewrite E; discriminate)) as [l0 []].
+    + exists (fst e1). intros x Hx Hne. destruct (filter (isf (f_id f)) (lookupB (s_msgs (st_store st)) x)) as [|i0 r0] eqn:E; [reflexivity|].
+      destruct (Hmem x Hx ltac:(rewrite E; discriminate)) as [l0 [Hl0|[]]]. subst e1. simpl in Hne. congruence.
+Qed.
+
+Definition band_last (p : params) (st : state) (fid : Z) : Z := fold_right Z.max 0 (map fst (band_blocks p st fid)).
+Definition band_weak_b (p : params) (st : state) : bool :=
+  forallb (fun f => (st_h st - 1 <? f_start f) || (leftb f (st_h st - 1) <? p_maxnonce p) ||
+                    match s_vub (st_store st) with Some v => st_h st - p_maxnonce p + 1 <=? v | None => false end ||
+                    match band_blocks p st (f_id f) with [] => true | [_] => true | _ => false end ||
+                    negb (exceeds (wsum (s_vals (st_store st)) (s_msgs (st_store st)) (f_id f) (band_last p st (f_id f))
+                                        (st_h st - p_maxnonce p + 1) (Z.to_nat (p_maxnonce p - 1))) (Tot (s_vals (st_store st)))))
+          (p_feeders p).
+
+Lemma max_key_ge (l : list (Z * list item)) e : In e l -> fst e <= fold_right Z.max 0 (map fst l).
+Proof. induction l as [|a r IH]; intros Hin; [destruct Hin|]. simpl. destruct Hin as [->|Hin]; [lia | specialize (IH Hin); lia]. Qed.
+
+Lemma band_weak_b_sound p st : band_weak_b p st = true -> band_weak p st.
+Proof.
+  unfold band_weak_b. intros Hb f Hin Hst Hl. rewrite forallb_forall in Hb. specialize (Hb f Hin).
+  apply orb_prop in Hb. destruct Hb as [Hb|Hb].
+  - apply orb_prop in Hb. destruct Hb as [Hb|Hb]; [apply orb_prop in Hb; destruct Hb as [Hb|Hb]|].
+    + apply orb_prop in Hb. destruct Hb as [Hb|Hb]; [apply Z.ltb_lt in Hb; lia | apply Z.ltb_lt in Hb; lia].
+    + left. destruct (s_vub (st_store st)) as [v|]; [|discriminate]. exists v. split; [reflexivity | apply Z.leb_le; exact Hb].
+    + right. left. pose proof (band_blocks_mem p st (f_id f)) as Hmem.
+      destruct (band_blocks p st (f_id f)) as [|e1 [|e2 r]]; [| |discriminate].
+      * exists 0. intros x Hx _. destruct (filter (isf (f_id f)) (lookupB (s_msgs (st_store st)) x)) as [|i0 r0] eqn:E; [reflexivity|].
+        destruct (Hmem x Hx ltac:(rewrite E; discriminate)) as [l0 []].
+      * exists (fst e1). intros x Hx Hne. destruct (filter (isf (f_id f)) (lookupB (s_msgs (st_store st)) x)) as [|i0 r0] eqn:E; [reflexivity|].
+        destruct (Hmem x Hx ltac:(rewrite E; discriminate)) as [l0 [Hl0|[]]]. subst e1. simpl in Hne. congruence.
+  - right. right. exists (band_last p st (f_id f)). split.
+    + intros x Hx Hx'. destruct (filter (isf (f_id f)) (lookupB (s_msgs (st_store st)) x)) as [|i0 r0] eqn:E; [reflexivity|]. exfalso.
+      destruct (band_blocks_mem p st (f_id f) x Hx' ltac:(rewrite E; discriminate)) as [l0 Hl0].
+      pose proof (max_key_ge _ _ Hl0) as Hm. simpl in Hm. unfold band_last in Hx. lia.
+    + apply negb_true_iff in Hb. exact Hb.
 Qed.
 
 Lemma window_open_b_iff p st : window_open_b p st = true <-> window_open p st.
